@@ -502,3 +502,220 @@ Proof.
     destruct Ho as [<-|Ho]; [|apply IH; exact Ho].
     apply write_id_inv in Hxy as (io & Hio & _). eapply dget_In_keys; exact Hio.
 Qed.
+
+(* ------------------------------------------------------------------ *)
+(* encoding fails only with codec errors *)
+Lemma mapM_err {A B} (f : A -> res B) l e : mapM f l = Err e -> exists x, In x l /\ f x = Err e.
+Proof.
+  induction l as [|x l IH]; simpl; [discriminate|].
+  destruct (f x) eqn:E; simpl.
+  - destruct (mapM f l); simpl; [discriminate|]. intros [= <-]. destruct (IH eq_refl) as (y & Hy & Ey). eauto.
+  - intros [= <-]. eauto.
+Qed.
+
+Lemma write_id_err d ws o e : write_id d ws o = Err e -> dmem d o = true -> e = BitIOError.
+Proof.
+  unfold write_id, dmem. destruct (dget d o); [|discriminate]. intros H _. eapply write_number_err; exact H.
+Qed.
+
+Definition codec_error (e : err) : Prop := e = CircuitEncodingError \/ e = BitIOError.
+
+Theorem encode_errors_are_codec_errors c e :
+  codec_wf c -> outputs_exist c -> encode_circuit c = Err e -> codec_error e.
+Proof.
+  intros Hwf Hout He. unfold encode_circuit in He.
+  destruct (encode_bits c) as [b|] eqn:Eb; simpl in He; [discriminate|]. injection He as <-.
+  unfold encode_bits, write_byte in Eb. set (ws := word_size c) in *.
+  destruct (write_number (N.of_nat ws) 8) eqn:E0; simpl in Eb;
+    [|injection Eb as <-; right; eapply write_number_err; eassumption].
+  destruct (write_number (N.of_nat (length (inputs c))) ws) eqn:E1; simpl in Eb;
+    [|injection Eb as <-; right; eapply write_number_err; eassumption].
+  destruct (write_number (N.of_nat (length (outputs c))) ws) eqn:E2; simpl in Eb;
+    [|injection Eb as <-; right; eapply write_number_err; eassumption].
+  destruct (write_number (N.of_nat (intermediates c)) ws) eqn:E3; simpl in Eb;
+    [|injection Eb as <-; right; eapply write_number_err; eassumption].
+  destruct (enumerate_gates c) as [d|] eqn:Een; simpl in Eb;
+    [|injection Eb as <-; left; eapply enumerate_err; eassumption].
+  destruct (enumerate_spec _ _ Hwf Een) as (Hinv & _). pose proof (ids_cover _ _ Hwf Een) as Hcov.
+  destruct (mapM (encode_gate c d ws) (dkeys d)) eqn:Eg; simpl in Eb.
+  - destruct (mapM (write_id d ws) (outputs c)) eqn:Eo; simpl in Eb; [discriminate|]. injection Eb as <-.
+    apply mapM_err in Eo as (o & Ho & Eo). right. eapply write_id_err; [exact Eo|].
+    apply dmem_keys, Hcov, dmem_keys, Hout; exact Ho.
+  - injection Eb as <-. apply mapM_err in Eg as (l & Hl & Eg).
+    destruct (In_keys_dget _ _ (proj1 (Hcov l) Hl)) as (g & Hg).
+    unfold encode_gate in Eg. rewrite (proj2 (get_gate_ok c l g) Hg) in Eg. simpl in Eg.
+    destruct (gtype_beq (gtyp g) INPUT) eqn:Et; [discriminate|].
+    destruct (gate_type_to_int (gtyp g)) as [code|]; [|injection Eg as <-; left; reflexivity].
+    destruct (negb _); [injection Eg as <-; left; reflexivity|].
+    destruct (write_number code GATE_TYPE_BIT_SIZE) eqn:Ec; simpl in Eg;
+      [|injection Eg as <-; right; eapply write_number_err; eassumption].
+    destruct (mapM (write_id d ws) (gops g)) eqn:Em; simpl in Eg; [discriminate|]. injection Eg as <-.
+    apply mapM_err in Em as (o & Ho & Eo). right. eapply write_id_err; [exact Eo|].
+    destruct (In_keys_dget _ _ Hl) as (il & Hil).
+    assert (gtyp g <> INPUT) as Hnt by (intros E; rewrite E in Et; discriminate).
+    destruct (ei_before _ _ Hinv _ _ _ Hil Hg Hnt o Ho) as (io & Hio & _). unfold dmem; rewrite Hio; reflexivity.
+Qed.
+
+(* ------------------------------------------------------------------ *)
+(* circuits inside the format are encoded whatever the storage order *)
+Definition format_ok (c : circuit) : Prop :=
+  forall l g, dget (gates c) l = Some g -> gtyp g <> INPUT ->
+    (exists code, gate_type_to_int (gtyp g) = Some code) /\ length (gops g) = get_arity (gtyp g).
+
+Definition acyclic (c : circuit) : Prop :=
+  exists rank : label -> nat, forall l g o,
+    dget (gates c) l = Some g -> gtyp g <> INPUT -> In o (gops g) -> (rank o < rank l)%nat.
+
+Lemma exists_min (rank : label -> nat) (l : list label) :
+  l <> [] -> exists m, In m l /\ forall x, In x l -> (rank m <= rank x)%nat.
+Proof.
+  induction l as [|a l IH]; [congruence|]. intros _. destruct l as [|b l].
+  - exists a. split; [left; reflexivity|]. intros x [<-|[]]; lia.
+  - destruct IH as (m & Hm & Hmin); [discriminate|].
+    destruct (Nat.le_gt_cases (rank a) (rank m)).
+    + exists a. split; [left; reflexivity|]. intros x [<-|Hx]; [lia|]. specialize (Hmin x Hx). lia.
+    + exists m. split; [right; exact Hm|]. intros x [<-|Hx]; [lia|]. apply Hmin; exact Hx.
+Qed.
+
+Lemma mapM_total {A B} (f : A -> res B) l : (forall x, In x l -> exists y, f x = Ok y) -> exists r, mapM f l = Ok r.
+Proof.
+  induction l as [|x l IH]; intros H; simpl; [eauto|].
+  destruct (H x (or_introl eq_refl)) as (y & ->). destruct IH as (r & ->); [intros z Hz; apply H; right; exact Hz|].
+  simpl. eauto.
+Qed.
+
+Lemma enum_loop_total c (rank : label -> nat) :
+  ops_exist c ->
+  (forall l g o, dget (gates c) l = Some g -> gtyp g <> INPUT -> In o (gops g) -> (rank o < rank l)%nat) ->
+  forall fuel P d,
+    enum_inv c d -> NoDup P -> (forall l, In l P -> dmem d l = false) ->
+    (forall l, dmem (gates c) l = true -> dmem d l = true \/ In l P) ->
+    (forall l, In l P -> exists g, dget (gates c) l = Some g /\ gtyp g <> INPUT) ->
+    (length P <= fuel)%nat -> exists d', enum_loop fuel c P d = Ok d'.
+Proof.
+  intros Hex Hrank. induction fuel as [|fuel IH]; intros P d Hinv Hnd Hfresh Hcov Hty Hlen.
+  - destruct P; [simpl; eauto|simpl in Hlen; lia].
+  - destruct P as [|l0 P0]; [simpl; eauto|]. rewrite enum_loop_S. set (P := l0 :: P0) in *.
+    destruct (enum_pass_total c P d []) as ([d1 post] & Ep).
+    { intros l Hl. destruct (Hty l Hl) as (g & Hg & _). unfold dmem; rewrite Hg; reflexivity. }
+    rewrite Ep. cbv beta iota delta [bind fst snd].
+    assert (length post < length P)%nat as Hlt.
+    { change (length post < length (@nil label) + length P)%nat.
+      eapply enum_pass_progress; [exact Ep|apply Hinv|exact Hnd|exact Hfresh|].
+      destruct (exists_min rank P) as (m & Hm & Hmin); [unfold P; discriminate|].
+      destruct (Hty m Hm) as (g & Hg & Ht). exists m, g. split; [exact Hm|]. split; [exact Hg|].
+      apply forallb_forall. intros o Ho.
+      destruct (Hcov o (Hex _ _ _ Hg Ht Ho)) as [Hd|Hp]; [exact Hd|].
+      specialize (Hmin o Hp). specialize (Hrank _ _ _ Hg Ht Ho). lia. }
+    destruct (Nat.eqb_spec (length post) (length P)) as [E|_]; [lia|].
+    destruct (enum_pass_spec _ _ _ _ _ _ Ep Hinv Hnd Hfresh) as (pl & pp & Epost & Hk & Hi & Hp).
+    simpl in Epost; subst post.
+    assert (NoDup (pl ++ pp)) as Hnd' by (eapply Permutation_NoDup; eassumption).
+    apply NoDup_app_iff in Hnd' as (_ & Hndpp & Hdisj).
+    apply IH; [exact Hi|exact Hndpp| | | |unfold P in *; simpl in *; lia].
+    + intros x Hxin. destruct (dmem d1 x) eqn:E; [|reflexivity]. apply dmem_keys in E. rewrite Hk in E.
+      apply in_app_or in E as [E|E].
+      * apply dmem_keys in E. rewrite Hfresh in E; [discriminate|].
+        eapply Permutation_in; [apply Permutation_sym; exact Hp|]. apply in_or_app; right; exact Hxin.
+      * exfalso; eapply Hdisj; eassumption.
+    + intros l Hl. destruct (Hcov l Hl) as [Hd|Hpin].
+      * left. apply dmem_keys. rewrite Hk. apply in_or_app; left. apply dmem_keys; exact Hd.
+      * eapply Permutation_in in Hpin; [|exact Hp]. apply in_app_or in Hpin as [H|H]; [|right; exact H].
+        left. apply dmem_keys. rewrite Hk. apply in_or_app; right; exact H.
+    + intros l Hl. apply Hty. eapply Permutation_in; [apply Permutation_sym; exact Hp|]. apply in_or_app; right; exact Hl.
+Qed.
+
+Lemma bit_length_gt n m : (n <= m)%nat -> (N.of_nat n < 2 ^ N.of_nat (bit_length m))%N.
+Proof.
+  intros H. unfold bit_length. rewrite N2Nat.id. pose proof (N.size_gt (N.of_nat m)). lia.
+Qed.
+
+Lemma arity_positive g code : gate_type_to_int g = Some code -> (1 <= get_arity g)%nat.
+Proof. destruct g; simpl; intros H; try discriminate; lia. Qed.
+
+Theorem format_circuits_encode c :
+  codec_wf c -> ops_exist c -> outputs_exist c -> acyclic c -> format_ok c ->
+  (word_size c < 256)%nat -> exists bs, encode_circuit c = Ok bs.
+Proof.
+  intros Hwf Hex Hout (rank & Hrank) Hfmt Hws. pose proof Hwf as [Hkeys Hindup Hin].
+  pose proof (keys_partition _ Hwf) as Hpart. pose proof (Permutation_length Hpart) as Hlen.
+  rewrite app_length in Hlen. unfold dkeys in Hlen. rewrite map_length in Hlen. fold (size c) in Hlen.
+  rewrite <- intermediates_length in Hlen.
+  (* without inputs an acyclic circuit inside the format has no gate at all *)
+  assert (length (inputs c) = 0%nat -> intermediates c = 0%nat) as Hnoin.
+  { intros H0. rewrite intermediates_length. destruct (non_input_labels c) as [|a ls] eqn:El; [reflexivity|exfalso].
+    destruct (exists_min rank (a :: ls)) as (m & Hm & Hmin); [discriminate|]. rewrite <- El in Hm, Hmin.
+    apply (non_input_labels_spec c m Hkeys) in Hm as (g & Hg & Ht).
+    destruct (Hfmt _ _ Hg Ht) as ((code & Hc) & Ha). pose proof (arity_positive _ _ Hc) as Hpos.
+    destruct (gops g) as [|o ops] eqn:Eo; [simpl in Ha; lia|].
+    assert (In o (gops g)) as Ho by (rewrite Eo; left; reflexivity).
+    pose proof (Hex _ _ _ Hg Ht Ho) as Hoe. unfold dmem in Hoe.
+    destruct (dget (gates c) o) as [go|] eqn:Ego; [|discriminate].
+    destruct (gtype_beq (gtyp go) INPUT) eqn:Eto.
+    - apply gtype_beq_eq in Eto. assert (In o (inputs c)) as Hoi by (apply Hin; eauto).
+      destruct (inputs c); [contradiction|simpl in H0; lia].
+    - assert (In o (non_input_labels c)) as Hon.
+      { apply non_input_labels_spec; [exact Hkeys|]. exists go. split; [exact Ego|]. intros E; rewrite E in Eto; discriminate. }
+      specialize (Hmin o Hon). specialize (Hrank _ _ _ Hg Ht Ho). lia. }
+  (* sizes fit the word size *)
+  assert ((size c =? 0)%nat = false -> forall n, (n <= size c - 1)%nat \/ n = length (inputs c) \/ n = length (outputs c) ->
+          (N.of_nat n < 2 ^ N.of_nat (word_size c))%N) as Hfit.
+  { intros Hs n Hn. unfold word_size. rewrite Hs. apply bit_length_gt. lia. }
+  assert ((N.of_nat (length (inputs c)) < 2 ^ N.of_nat (word_size c))%N /\
+          (N.of_nat (length (outputs c)) < 2 ^ N.of_nat (word_size c))%N /\
+          (N.of_nat (intermediates c) < 2 ^ N.of_nat (word_size c))%N /\
+          (forall i, (i < N.of_nat (size c))%N -> (i < 2 ^ N.of_nat (word_size c))%N)) as (F1 & F2 & F3 & F4).
+  { destruct (size c =? 0)%nat eqn:Hs.
+    - apply Nat.eqb_eq in Hs. assert (outputs c = []) as Ho0.
+      { destruct (outputs c) as [|o os] eqn:Eo; [reflexivity|exfalso].
+        assert (dmem (gates c) o = true) as H by (apply Hout; rewrite Eo; left; reflexivity).
+        unfold size in Hs. destruct (gates c); [discriminate|discriminate]. }
+      unfold word_size. rewrite Hs, Ho0. simpl.
+      replace (length (inputs c)) with 0%nat by lia. replace (intermediates c) with 0%nat by lia.
+      repeat split; try reflexivity. intros i Hi. lia.
+    - repeat split.
+      + apply Hfit; auto.
+      + apply Hfit; auto.
+      + apply Hfit; [reflexivity|]. destruct (length (inputs c)) as [|k] eqn:Ek; [|left; lia].
+        rewrite (Hnoin eq_refl). left; lia.
+      + intros i Hi. apply Nat.eqb_neq in Hs.
+        pose proof (Hfit eq_refl (size c - 1)%nat (or_introl (le_n _))) as H. lia. }
+  (* enumeration *)
+  assert (exists d, enumerate_gates c = Ok d) as (d & Hen).
+  { unfold enumerate_gates.
+    destruct (fold_ids_add (inputs c) [] ids_ok_nil Hindup) as (Hok0 & Hk0); [reflexivity|]. simpl in Hk0.
+    set (d0 := fold_left ids_add (inputs c) []) in *.
+    apply (enum_loop_total c rank Hex Hrank); [| | | | |apply le_n].
+    - split; [exact Hok0|]. intros l g il Hl Hg Ht. exfalso.
+      apply dget_In_keys in Hl. rewrite Hk0 in Hl. apply Hin in Hl as (g' & Hg' & Ht'). congruence.
+    - apply non_input_labels_nodup; exact Hkeys.
+    - intros l Hl. destruct (dmem d0 l) eqn:E; [|reflexivity]. apply dmem_keys in E. rewrite Hk0 in E.
+      apply Hin in E as (g & Hg & Ht). apply non_input_labels_spec in Hl as (g' & Hg' & Ht'); [|exact Hkeys]. congruence.
+    - intros l Hl. apply dmem_keys in Hl. eapply Permutation_in in Hl; [|apply Permutation_sym; exact Hpart].
+      apply in_app_or in Hl as [H|H]; [left; apply dmem_keys; rewrite Hk0; exact H|right; exact H].
+    - intros l Hl. apply non_input_labels_spec; assumption. }
+  destruct (enumerate_spec _ _ Hwf Hen) as (Hinv & pl & Hk & Hp). pose proof (ids_cover _ _ Hwf Hen) as Hcov.
+  assert (length d = size c) as Hld.
+  { rewrite <- (map_length fst d). fold (dkeys d). rewrite Hk, app_length, (Permutation_length Hp), <- intermediates_length. lia. }
+  assert (forall o, dmem d o = true -> exists b, write_id d (word_size c) o = Ok b) as Hwid.
+  { intros o Ho. unfold write_id, dmem in *. destruct (dget d o) as [io|] eqn:Eo; [|discriminate].
+    rewrite write_number_ok; [eauto|]. apply F4. rewrite <- Hld. eapply ids_get_lt; [apply Hinv|exact Eo]. }
+  assert (exists gb, mapM (encode_gate c d (word_size c)) (dkeys d) = Ok gb) as (gb & Hgb).
+  { apply mapM_total. intros l Hl. destruct (In_keys_dget _ _ (proj1 (Hcov l) Hl)) as (g & Hg).
+    destruct (gtype_beq (gtyp g) INPUT) eqn:Et.
+    - apply gtype_beq_eq in Et. exists []. eapply encode_gate_input; eassumption.
+    - assert (gtyp g <> INPUT) as Hnt by (intros E; rewrite E in Et; discriminate).
+      destruct (Hfmt _ _ Hg Hnt) as ((code & Hc) & Ha).
+      unfold encode_gate. rewrite (proj2 (get_gate_ok c l g) Hg). simpl. rewrite Et, Hc, Ha, Nat.eqb_refl. simpl.
+      rewrite write_number_ok by (eapply code_fits; exact Hc). simpl.
+      destruct (mapM_total (write_id d (word_size c)) (gops g)) as (obs & ->); [|simpl; eauto].
+      intros o Ho. apply Hwid. destruct (In_keys_dget _ _ Hl) as (il & Hil).
+      destruct (ei_before _ _ Hinv _ _ _ Hil Hg Hnt o Ho) as (io & Hio & _). unfold dmem; rewrite Hio; reflexivity. }
+  assert (exists ob, mapM (write_id d (word_size c)) (outputs c) = Ok ob) as (ob & Hob).
+  { apply mapM_total. intros o Ho. apply Hwid. apply dmem_keys, Hcov, dmem_keys, Hout; exact Ho. }
+  unfold encode_circuit, encode_bits, write_byte.
+  rewrite write_number_ok by (change (2 ^ N.of_nat 8)%N with 256%N; lia). simpl.
+  rewrite (write_number_ok _ _ F1). simpl. rewrite (write_number_ok _ _ F2). simpl.
+  rewrite (write_number_ok _ _ F3). simpl. rewrite Hen. simpl. rewrite Hgb. simpl. rewrite Hob. simpl. eauto.
+Qed.
+Transparent number_bits.
